@@ -98,7 +98,11 @@ class OverrideableDataDesc(object):
             ret = self
         else:
             ret = self.custom_getter(func, original=self)
-        self.insts[func] = ret
+        if ret is not func:
+            # a getter that hands the bound function back as it is leaves
+            # nothing to remember: an entry whose value is its own key would
+            # never go away, and keep the instance alive
+            self.insts[func] = ret
         return ret
 
 def safe_get(obj, instance, owner):
